@@ -18,6 +18,7 @@ struct H : drv::Harness
 	{
 		Plan p; drv::draw_sched_knobs(p, rng, true);
 		World::draw_net_knobs(p, rng);
+		p.knobs["tweak_outbound"] = rng.chance(0.5);
 		p.knobs["initiator"] = rng.below(2);
 		{ int x = (int)rng.below(20); p.knobs["pm"] = x < 12 ? pm_thread : x < 15 ? pm_coro : pm_pipeline; }
 		p.knobs["pers"] = rng.chance(0.5) ? 2 : 1;
